@@ -12,9 +12,9 @@ ASSUMPTIONS = [
 
 def run(tier, seed):
     common.PID_ALIAS.update({"SQLM": "C11", "KVM": "C11"})
-    from .. import relay
+    from .. import relay, extra
     return common.drop_foreign(sqlm.suites_c11(tier, seed) + kvb.suites_c11(tier, seed)
-                               + [relay.suite_validate(tier, seed, pid="C11", entry="filt.validate")], "C11")
+                               + [relay.suite_validate(tier, seed, pid="C11", entry="filt.validate"), extra.suite_filter_object_reuse(tier, seed)], "C11")
 
 
 def replay(payload):
